@@ -341,6 +341,7 @@ func (e *Exec) binop(op token.Token, a, b Value, rt types.Type) Value {
 		case token.ADD, token.SUB, token.MUL, token.QUO:
 			return e.floatBin(op.String(), a, b, rt)
 		case token.EQL, token.NEQ, token.LSS, token.LEQ, token.GTR, token.GEQ:
+			e.cmpHint(a, b)
 			return Value{T: rt, S: []string{floatCmp(op.String(), a, b)}}
 		}
 	case isInteger(a.T):
